@@ -40,9 +40,30 @@ def run_fit(X, kern, params):
         model = Kauri(**params).fit(X, kern)
         score = model.score(X, kern)
         pred = model.predict(X)
+        model._c09_sub_scores = sub_scores(model, X, kern, pred)
     finally:
         K.find_best_split, K.gemini_objective = old
     return model, draws, score, pred
+
+
+def sub_scores(model, X, kern, pred):
+    """score on batches OTHER than the training set (must be called while the transliterated gemini_objective is installed):
+    the samples of each single cluster (the labels present then skip the lower ids), the samples outside cluster 0, one half"""
+    out = []
+    labs = sorted(set(np.asarray(pred).tolist()))
+    groups = [np.where(np.asarray(pred) == c)[0] for c in labs[:4]]
+    if len(labs) > 1:
+        groups.append(np.where(np.asarray(pred) != labs[0])[0])
+    groups.append(np.arange(0, len(X), 2))
+    for idx in groups:
+        if len(idx) == 0:
+            continue
+        try:
+            sc = model.score(X[idx], kern[np.ix_(idx, idx)])
+            out.append((idx.tolist(), sc, None))
+        except Exception as e:
+            out.append((idx.tolist(), None, f"{type(e).__name__}: {e}"))
+    return out
 
 
 def fit_line(X, kern, params, draws):
@@ -126,6 +147,14 @@ def invariants(model, X, kern, params, pred, score):
         cl = set(model.labels_[mem[node]].tolist()) if mem[node] else set()
         if len(cl) > 1 or (cl and cl != {t.target[node]}):
             bad.append(("leaf-cluster", f"leaf node {node}: labels {cl}, target {t.target[node]}"))
+    for idx, sc, err in getattr(model, "_c09_sub_scores", []):
+        sub = kern[np.ix_(idx, idx)]
+        want = kl.J(sub, [int(pred[i]) for i in idx])
+        if err is not None:
+            bad.append(("score-subset", f"score on the samples {idx} raised {err}"))
+        elif Fraction(sc) != want:
+            bad.append(("score-subset", f"score on the samples {idx} (predicted clusters {sorted(set(int(pred[i]) for i in idx))}) is "
+                                        f"{float(Fraction(sc))}, the objective of their predicted labels is {float(want)}"))
     if Fraction(score) != kl.J(kern, list(pred)):
         bad.append(("score", f"score {float(Fraction(score))} != objective of predicted labels {float(kl.J(kern, list(pred)))}"))
     # leaves_ consistent with routing: samples with the same leaves_ id share a routed leaf
